@@ -1,7 +1,7 @@
 (* C10 - reload (HUP) replaces every worker without refusing or cutting a request.
    Statements only; every proof is `exact` of a lemma of Proof/Reload*.v / Proof/ShutdownWorker.v. *)
 From Coq Require Import List ZArith Bool Lia.
-From GV Require Import Gen.GenArbiter Gen.GenShutdown Model.Shutdown Proof.ShutdownWorker Model.Reload Proof.ReloadBase Proof.ReloadInv Proof.ReloadThm.
+From GV Require Import Gen.GenArbiter Gen.GenShutdown Model.Shutdown Proof.ShutdownWorker Model.Reload Proof.ReloadBase Proof.ReloadInv Proof.ReloadCount Proof.ReloadThm.
 Import ListNotations.
 Local Open Scope Z_scope.
 
@@ -37,6 +37,36 @@ Theorem pool_after_convergence : forall n a ls, told_only ls = true ->
   (forall w, In w (workers s) -> retired s w = false) ->
   wlen s = cfgw s /\ (forall w, In w (workers s) -> hup_age s < w_age w /\ w_cfg w = cfgid s /\ w_lsn w = lsn s).
 Proof. exact converged_pool. Qed.
+
+(* ... and this whatever TTIN / TTOU had made of the pool before the reload: from a pool of n running workers whose
+   configuration says k (init_resized n k), once a reload has happened (the Config object in force is not the one loaded at
+   start) num_workers is cfg.workers again, the unretired workers are the new generation, and after convergence the pool
+   has exactly the newly configured number *)
+Theorem reload_replaces_resized_pool : forall n k a ls, 0 <= k -> told_only ls = true ->
+  let s := run (init_resized n k a) ls in
+  cur s = PSigq \/ cur s = PSelect ->
+  (forall w, In w (workers s) -> retired s w = false -> hup_age s < w_age w /\ w_cfg w = cfgid s /\ w_lsn w = lsn s) /\
+  Z.of_nat (length (filter (fun w => negb (retired s w)) (workers s))) = num s /\ (0 < cfgid s -> num s = cfgw s).
+Proof. exact reload_replaces_pool_resized. Qed.
+Print Assumptions reload_replaces_resized_pool.
+
+Theorem resized_pool_after_convergence : forall n k a ls, 0 <= k -> told_only ls = true ->
+  let s := run (init_resized n k a) ls in
+  cur s = PSigq \/ cur s = PSelect -> 0 < cfgid s ->
+  (forall w, In w (workers s) -> retired s w = false) ->
+  wlen s = cfgw s /\ (forall w, In w (workers s) -> hup_age s < w_age w /\ w_cfg w = cfgid s /\ w_lsn w = lsn s).
+Proof. exact converged_pool_resized. Qed.
+
+(* for ANY schedule, deaths included: a reload resets num_workers to the configured number *)
+Theorem count_after_reload : forall n k a ls,
+  let s := run (init_resized n k a) ls in 0 < cfgid s -> num s = cfgw s.
+Proof. exact ReloadCount.count_after_reload. Qed.
+Print Assumptions count_after_reload.
+
+Theorem resized_reload_keeps_listeners : forall n k a ls, addr_ok a ls = true ->
+  let s := run (init_resized n k a) ls in
+  lsn s = [0] /\ closed s = [] /\ (forall w, In w (workers s) -> w_lsn w = [0]).
+Proof. exact reload_keeps_listeners_resized. Qed.
 
 (* hup_age is worker_age at the moment the reload is dispatched *)
 Theorem generation_mark : forall s q, sigq s = SIGHUP :: q -> cur s = PSigq -> hup_age (master s) = wage s.
@@ -81,6 +111,14 @@ Example reload_example_midway :
   let s := run (init 2 0) ([Edit 3 0; Hup] ++ repeat Master 12) in
   map w_pid (workers s) = [100; 101; 102; 103; 104] /\ map (retired s) (workers s) = [true; true; false; false; false].
 Proof. vm_compute. repeat split. Qed.
+(* TTIN had made it 3 workers, the configuration says 2; HUP: two new ones, the three old ones told; converged: 2 workers *)
+Definition ex_resized : list label :=
+  [Hup] ++ repeat Master 10 ++ [ExitTold 100; ExitTold 101; ExitTold 102; Chld] ++ repeat Master 4.
+Example resized_example :
+  let s := run (init_resized 3 2 0) ex_resized in
+  told_only ex_resized = true /\ (cur s = PSigq \/ cur s = PSelect) /\ 0 < cfgid s /\ num (init_resized 3 2 0) = 3 /\
+  map w_pid (workers s) = [103; 104] /\ num s = 2 /\ forallb (fun w => negb (retired s w)) (workers s) = true.
+Proof. vm_compute. repeat split; auto. Qed.
 Example old_worker_example :
   w_conn (wrun 768 (w_init GThread CApp 5000 512 0) [WTerm; WTick 256; WLoop; WTick 4000; WLoop; WTick 1000; WLoop]) = CDone.
 Proof. vm_compute. reflexivity. Qed.
